@@ -152,11 +152,6 @@ theorem interp_nil_of_guards_false (disp : List (String × String)) (σ : Valuat
     simp only [interp, List.filterMap_cons] at this ⊢
     simp [evalEntry, he, this]
 
-def subDecls (subs : List (String × String × List Decl)) (w : String) : List Decl :=
-  match subs.find? (fun x => x.1 == w) with
-  | some x => x.2.2
-  | none => []
-
 /-- `[declared top-level options]* subcommand-word [options declared by that subcommand]*` -/
 def Accepted (top : List Decl) (subs : List (String × String × List Decl)) (items : List Item) : Prop :=
   ∃ pre w post, items = pre ++ ⟨none, .one w⟩ :: post ∧ (∀ it ∈ pre, ItemDeclared top it) ∧
